@@ -218,10 +218,39 @@ def main(argv=None):
         if "failure" in r:
             violations.append((r["failure"]["replay"], f"[{r['facet']}] {r['failure']['message']}"))
 
-    # 3. known findings (none suppresses anything unless status == "known")
+    # 3. known findings: status "known" entries name one pinned failing input (replay) and the failure it shows.
+    #    The pinned input is re-run with the exclusion switched off (H.STRICT): it must still fail in the listed way
+    #    (-> KNOWN-FINDING line, exit code unaffected); a different failure on it is a VIOLATION.  Entries with status
+    #    "fixed" suppress nothing.
+    import re
     known = [k for k in load_known(prop) if k.get("status") == "known"]
+    known_report = []
     for k in known:
-        print(f"KNOWN-FINDING: property={prop} {k.get('what', '')}")
+        rp = os.path.join(H.VERIF, k["replay"])
+        try:
+            doc = H.load_replay(rp)
+            facet = facets[doc["facet"]]
+            tmp = tempfile.mkdtemp(prefix=f"{prop}-known-", dir=os.path.join(OUT, "tmp"))
+            old_cwd = os.getcwd()
+            os.chdir(tmp)
+            H.STRICT = True
+            try:
+                msg = H.run_replay(facet, doc["case"])
+            finally:
+                H.STRICT = False
+                os.chdir(old_cwd)
+                shutil.rmtree(tmp, ignore_errors=True)
+        except H.HarnessError as e:
+            harness_errors.append((f"known:{k.get('id')}", str(e)))
+            continue
+        if msg is None:
+            print(f"NOTE property={prop} known finding {k.get('id')} no longer reproduces on its pinned input ({k['replay']})")
+            known_report.append({"id": k.get("id"), "reproduced": False})
+        elif re.search(k["expect"], msg):
+            print(f"KNOWN-FINDING: property={prop} {k.get('id')}: {k.get('what', '')} [pinned input {k['replay']}]")
+            known_report.append({"id": k.get("id"), "reproduced": True})
+        else:
+            violations.append((rp, f"[known finding {k.get('id')}: pinned input fails differently] {msg}"))
 
     wall = time.time() - t0
     evaluations = sum(p["evaluations"] for p in per_facet.values())
@@ -258,6 +287,7 @@ def main(argv=None):
                 for name, p in per_facet.items()
             },
             "committed_replays_run": len(rep),
+            "known_findings": known_report,
             "truncated": any(p["truncated"] for p in per_facet.values()),
         },
         "assumptions": list(getattr(mod, "ASSUMPTIONS", [])),
